@@ -34,7 +34,7 @@ DT = dict(F32=np.float32, F64=np.float64, U8=np.uint8, I16=np.int16, I32=np.int3
 def cases(tier, seed):
     R = random.Random("c10/%d" % seed)
     out = []
-    n = 42 if tier == "quick" else 700
+    n = 42 if tier == "quick" else 2500
     combos = [(f, m) for f in MODES for m in MODES[f]]
     for i in range(n):
         fmt, mode = combos[i % len(combos)]
